@@ -7,6 +7,7 @@ mod c32_manifest;
 mod c32_seq;
 mod c32_txn;
 mod c38;
+mod c38_branch;
 
 use vcore::{machinery_error, Ctx};
 
